@@ -55,6 +55,8 @@ fn exec(w: &mut Worker, step: &str) -> String {
                     std::ptr::copy(m.as_ptr().add(a[0].min(m.len())), a[1] as *mut u8, l1);
                     if a[4] > 0 { std::ptr::copy(m.as_ptr().add(a[0].saturating_add(a[2]).min(m.len())), a[3] as *mut u8, l2); } } } }
             "UNIT".into() }
+        // a cached-id handle that is a `static` (what applications declare), always the same one per key
+        ["SLOAD", k] => { let k = k.parse::<usize>().unwrap(); let id = CACHED[k].load(); let n: usize = unsafe { std::mem::transmute_copy(&id) }; format!("ID {}", n) }
         ["LOAD", k] => { let k = k.parse::<usize>().unwrap(); w.loads += 1;
             let id = if w.loads % 2 == 0 || k >= CACHED.len() || k == 0 || k == 5 { *w.slot = CachedInternedStringId::new(key_str(k)); w.slot.load() } else { CACHED[k].load() };
             let n: usize = unsafe { std::mem::transmute_copy(&id) }; format!("ID {}", n) }
@@ -241,6 +243,25 @@ pub fn run(a: &Args, out: &mut Out, kind: &str) {
                 let w = vec![(1usize, "INIT c0".to_string()), (2, "INIT c0".into()), (1, format!("AINTERN {}", hex(a.as_bytes()))), (2, format!("AINTERN {}", hex(b.as_bytes()))),
                     (2, format!("AINTERN {}", hex(a.as_bytes()))), (1, format!("AINTERN {}", hex(b.as_bytes()))), (1, "W SARR 2".into()), (1, "ISTR 0".into()), (1, "ISTR 1".into()), (1, "W FARR".into()),
                     (2, "W SARR 2".into()), (2, "ISTR 0".into()), (2, "ISTR 1".into()), (2, "W FARR".into()), (1, "OUT".into()), (2, "OUT".into())];
+                run_one(out, &mut iso, &mut id, w);
+            }
+            // threads with DIFFERENT interning histories: the empty string, static cached handles loaded in different orders,
+            // by-id lookups of a duplicated key after another thread resolved the same numeric id elsewhere
+            {
+                let h = |b: &[u8]| hex(b);
+                let w = vec![(1usize, "INIT c0".to_string()), (2, "INIT c0".into()), (1, "INTERNDEST 3".into()), (1, format!("INTERNCOPY {}", h(b"abc"))), (1, "INTERNDEST 2".into()), (1, format!("INTERNCOPY {}", h(b"de"))),
+                    (1, "INTERNDEST 0".into()), (1, "INTERNCOPY -".into()), (2, "INTERNDEST 1".into()), (2, format!("INTERNCOPY {}", h(b"k"))), (2, "INTERNDEST 0".into()), (2, "INTERNCOPY -".into()),
+                    (2, "W SARR 2".into()), (2, "ISTR 0".into()), (2, "ISTR 1".into()), (2, "W FARR".into()), (2, "OUT".into()), (1, "W SARR 1".into()), (1, "ISTR 2".into()), (1, "OUT".into())];
+                run_one(out, &mut iso, &mut id, w);
+                // {"title":1,"k1":2}
+                let d = h(&[0x82, 0xa5, b't', b'i', b't', b'l', b'e', 0x01, 0xa2, b'k', b'1', 0x02]);
+                let w = vec![(1usize, format!("INIT {}", d)), (2, format!("INIT {}", d)), (1, "SLOAD 5".into()), (2, "SLOAD 3".into()), (2, "SLOAD 5".into()), (2, "R ROOT".into()), (2, "RIPROP 0 1".into()), (2, "RIPROP 0 0".into()),
+                    (2, "W SOBJ 1".into()), (2, "ISTR 1".into()), (2, "W I32 -7".into()), (2, "W FOBJ".into()), (2, "OUT".into()), (1, "SLOAD 3".into()), (1, "R ROOT".into()), (1, "RIPROP 0 1".into()), (1, "RIPROP 0 0".into())];
+                run_one(out, &mut iso, &mut id, w);
+                // {"b":3,"b":4} on thread 1, {"y":0,"x":1} on thread 2; both intern their key as id 0
+                let d1 = h(&[0x82, 0xa1, b'b', 0x03, 0xa1, b'b', 0x04]); let d2 = h(&[0x82, 0xa1, b'y', 0x00, 0xa1, b'x', 0x01]);
+                let w = vec![(1usize, format!("INIT {}", d1)), (2, format!("INIT {}", d2)), (1, "INTERNDEST 1".into()), (1, format!("INTERNCOPY {}", h(b"b"))), (2, "INTERNDEST 1".into()), (2, format!("INTERNCOPY {}", h(b"x"))),
+                    (1, "R ROOT".into()), (1, "R IDX 0 1".into()), (2, "R ROOT".into()), (2, "RIPROP 0 0".into()), (1, "RIPROP 0 0".into()), (1, "R PROP 0 62".into()), (2, "RIPROP 0 0".into())];
                 run_one(out, &mut iso, &mut id, w);
             }
             // the known-bad shape: T1 plan, T2 plan, T1 copy
